@@ -62,6 +62,81 @@ class _Ren(ast.NodeTransformer):
         return node
 
 
+class _SwapBranches(ast.NodeTransformer):
+    """if c: A else: B  ->  if not c: B else: A"""
+
+    def visit_If(self, node):
+        self.generic_visit(node)
+        if node.orelse:
+            test = node.test.operand if isinstance(node.test, ast.UnaryOp) and isinstance(node.test.op, ast.Not) else ast.UnaryOp(op=ast.Not(), operand=node.test)
+            return ast.If(test=test, body=node.orelse, orelse=node.body)
+        return node
+
+
+class _IfExpToIf(ast.NodeTransformer):
+    """x = a if c else b  ->  if c: x = a else: x = b   (statement-level single-target assignments)"""
+
+    def visit_Assign(self, node):
+        if isinstance(node.value, ast.IfExp) and len(node.targets) == 1 and isinstance(node.targets[0], (ast.Name, ast.Attribute)):
+            v = node.value
+            return ast.If(test=v.test, body=[ast.Assign(targets=node.targets, value=v.body)], orelse=[ast.Assign(targets=node.targets, value=v.orelse)])
+        return node
+
+
+class _IfToIfExp(ast.NodeTransformer):
+    """if c: x = a else: x = b  ->  x = a if c else b"""
+
+    def visit_If(self, node):
+        self.generic_visit(node)
+        if len(node.body) == 1 and len(node.orelse) == 1 and all(isinstance(s, ast.Assign) and len(s.targets) == 1 for s in node.body + node.orelse):
+            a, b = node.body[0], node.orelse[0]
+            if isinstance(a.targets[0], (ast.Name, ast.Attribute)) and ast.dump(a.targets[0]) == ast.dump(b.targets[0]):
+                return ast.Assign(targets=a.targets, value=ast.IfExp(test=node.test, body=a.value, orelse=b.value))
+        return node
+
+
+_FLIP = {ast.Lt: ast.Gt, ast.Gt: ast.Lt, ast.LtE: ast.GtE, ast.GtE: ast.LtE, ast.Eq: ast.Eq, ast.NotEq: ast.NotEq}
+
+
+def _simple(e):
+    return isinstance(e, (ast.Name, ast.Constant)) or (isinstance(e, ast.Attribute) and _simple(e.value))
+
+
+class _FlipCompare(ast.NodeTransformer):
+    """a < b  ->  b > a  when both sides are names / constants / attribute chains (no evaluation-order effect)"""
+
+    def visit_Compare(self, node):
+        self.generic_visit(node)
+        if len(node.ops) == 1 and type(node.ops[0]) in _FLIP and _simple(node.left) and _simple(node.comparators[0]):
+            return ast.Compare(left=node.comparators[0], ops=[_FLIP[type(node.ops[0])]()], comparators=[node.left])
+        return node
+
+
+class _HoistReturn(ast.NodeTransformer):
+    """return expr  ->  _result = expr; return _result   (not for bare names / constants)"""
+
+    def _block(self, stmts):
+        out = []
+        for st in stmts:
+            if isinstance(st, ast.Return) and st.value is not None and not isinstance(st.value, (ast.Name, ast.Constant)):
+                out.append(ast.Assign(targets=[ast.Name(id="_result", ctx=ast.Store())], value=st.value))
+                out.append(ast.Return(value=ast.Name(id="_result", ctx=ast.Load())))
+            else:
+                out.append(st)
+        return out
+
+    def generic_visit(self, node):
+        super().generic_visit(node)
+        for f in ("body", "orelse", "finalbody"):
+            v = getattr(node, f, None)
+            if isinstance(v, list) and v and isinstance(v[0], ast.stmt):
+                setattr(node, f, self._block(v))
+        return node
+
+
+KINDS = {"swap_branches": _SwapBranches, "ifexp_to_if": _IfExpToIf, "if_to_ifexp": _IfToIfExp, "flip_compare": _FlipCompare, "hoist_return": _HoistReturn}
+
+
 def make(kind, src_root="/repo"):
     d = tempfile.mkdtemp(prefix="vstat_twin_")
     shutil.copytree(os.path.join(src_root, "virocon"), os.path.join(d, "virocon"), ignore=shutil.ignore_patterns("__pycache__"))
@@ -78,6 +153,9 @@ def make(kind, src_root="/repo"):
             loc, forb = _locals_and_forbidden(tree)
             tree = _Ren(loc - forb).visit(tree)
             ast.fix_missing_locations(tree)
+        elif kind in KINDS:
+            tree = KINDS[kind]().visit(tree)
+            ast.fix_missing_locations(tree)
         out = ast.unparse(tree)
         with warnings.catch_warnings():
             warnings.simplefilter("ignore")
@@ -90,7 +168,9 @@ def make(kind, src_root="/repo"):
 def main():
     props = sys.argv[1:] or [f"C{i:02d}" for i in range(1, 21)]
     bad = 0
-    for kind in ("unparse", "rename_locals"):
+    kinds = [k for k in props if not k.startswith("C")]
+    props = [p for p in props if p.startswith("C")] or [f"C{i:02d}" for i in range(1, 21)]
+    for kind in kinds or ["unparse", "rename_locals"] + sorted(KINDS):
         d = make(kind)
         try:
             for p in props:
